@@ -271,10 +271,12 @@ func (s *Streamer) parseEvents(ctx context.Context, events <-chan replication.Bi
 			_log.Debugf("parseEvents pos: %+v binlog event is a table map event, tableID: %v table map: %+v",
 				pos, tableID, *tm)
 
-			if _, ok = tablesMaps[tableID]; ok {
-				tablesMaps[tableID].tableMap = tm
+			if tc, ok := tablesMaps[tableID]; ok && tc.tableMap.Database == tm.Database && tc.tableMap.Name == tm.Name {
+				tc.tableMap = tm
 				continue
 			}
+			// first announcement of this id, or the id now names another table
+			// (a restarted server hands out table ids from the start again)
 
 			tc := &tableCache{
 				tableMap: tm,
